@@ -148,9 +148,12 @@ def _real_restart(rng, n):
     from wannierberri.system.system_R import System_R
     rg = importlib.import_module("wannierberri.run_grid")
     fails, cases = [], 0
-    scen = [((1, 2), "reversed", False), ((1, 1, 1), "rotated", True)] if n <= 30 else \
-        [((1, 2), "reversed", False), ((1, 1, 1), "rotated", True), ((2, 1), "reversed", True), ((1, 2), "sorted", False), ((1, 1, 1), "reversed", False)]
+    # dump = "only": dump_results alone, without allow_restart -- dumping implies restartability, also for a first leg without refinement
+    scen = [((1, 2), "reversed", False), ((1, 1, 1), "rotated", True), ((0, 2), "sorted", "only")] if n <= 30 else \
+        [((1, 2), "reversed", False), ((1, 1, 1), "rotated", True), ((0, 2), "sorted", "only"), ((2, 1), "reversed", True), ((1, 2), "sorted", False), ((1, 1, 1), "reversed", False), ((0, 1, 1), "reversed", "only")]
     for split, order, dump in scen:
+        allow = dump != "only"
+        dump = bool(dump)
         rnp.random.seed(rng.randint(0, 10 ** 6))
         with contextlib.redirect_stdout(io.StringIO()):
             system = System_R.from_random(num_wann=3, nRvec=27, max_R=1, berry=True)
@@ -171,16 +174,16 @@ def _real_restart(rng, n):
             fs = sorted(real(pat))
             return fs if order == "sorted" else fs[::-1] if order == "reversed" else fs[1:] + fs[:1]
         try:
-            ref = go(d1, adpt_num_iter=total, allow_restart=True, dump_results=dump)
+            ref = go(d1, adpt_num_iter=total, allow_restart=allow, dump_results=dump)
             rg.glob = types.SimpleNamespace(glob=fake)
-            out = go(d2, adpt_num_iter=split[0], allow_restart=True, dump_results=dump)
+            out = go(d2, adpt_num_iter=split[0], allow_restart=allow, dump_results=dump)
             for more in split[1:]:
-                out = go(d2, adpt_num_iter=more, restart=True, allow_restart=True, dump_results=dump)
+                out = go(d2, adpt_num_iter=more, restart=True, allow_restart=allow, dump_results=dump)
             cases += 1
             for k in ("dos", "ahc"):
                 a, b = ref.results[k].data, out.results[k].data
                 if not rnp.allclose(a, b, rtol=1e-8, atol=1e-10 * (1 + abs(a).max())):
-                    fails.append(dict(input=dict(split=list(split), listing=order, dump_results=dump, calculator=k),
+                    fails.append(dict(input=dict(split=list(split), listing=order, dump_results=dump, allow_restart=allow, calculator=k),
                                       clause="restarted run == uninterrupted run", max_abs_diff=float(abs(a - b).max())))
         finally:
             rg.glob = _glob
@@ -202,3 +205,5 @@ _mk_restart_unit(2, 1, 0, prop="C11", legs=2)
 _mk_restart_unit(2, 2, 1, prop="C11", legs=2)
 _mk_unit(2, 2, "restart", True, ("quick", "thorough"), prop="C11", klist_part=1)
 _mk_unit(3, 2, "restart", True, ("quick", "thorough"), prop="C11", klist_part=2)
+_mk_unit(2, 0, "dump", True, ("quick", "thorough"), prop="C11")          # a first leg without refinement, dump_results alone: the restart files must exist
+_mk_unit(2, 1, "dump", True, ("quick", "thorough"), prop="C11")
